@@ -25,8 +25,13 @@ TOPOS = {
 SPID_RE = re.compile(rb'"(spid|conn)": \d+')
 
 
+DEAD_RE = re.compile(rb'(error receiving data from server|Error reading|Error writing)[^\x00]*')
+
+
 def norm_reply(rep):
-    return [(t, SPID_RE.sub(b'"x": 0', b).decode('latin1')) for t, b in rep.msgs] + [('end', rep.end)]
+    # (the text of the pooler's own error about a server connection that died says how the operating system reported it,
+    # which is not the same from one run to the next)
+    return [(t, DEAD_RE.sub(rb'\1', SPID_RE.sub(b'"x": 0', b)).decode('latin1')) for t, b in rep.msgs] + [('end', rep.end)]
 
 
 def short(t, body):
@@ -164,6 +169,14 @@ def run_world(item, with_mirrors):
                 out['ops'].append({'i': i, 'op': 'recycle:%s' % st['a'], 'ms': ms, 'reply': [norm_reply(r) for r in reps]})
                 if c.dead or any(r.end == 'EOF' for r in reps):
                     break
+                # whether the next statement still meets the dead connection depends on timing, with or without mirrors:
+                # use such connections up before the steps that are compared
+                for _ in range(item.get('pool_size', 1) + 1):
+                    r0 = one('SELECT 0')
+                    if r0.end != 'Z':
+                        break
+                    if not r0.errors:
+                        break
             elif op == 'pause':
                 time.sleep(0.25)
         # a last request per server, after which the mirrors are given time to drain
@@ -191,6 +204,9 @@ def run_world(item, with_mirrors):
         for sname in ('s1', 's2'):
             conns = {}
             for e in evs:
+                if e.get('ev') == 'connect' and e.get('be') == sname:
+                    # (a connection may die before it reads anything: what was written to it is known by length only)
+                    conns.setdefault(e['conn'], {'spid': e['spid'], 'msgs': []})
                 if e.get('ev') == 'be_read' and e.get('be') == sname:
                     conns.setdefault(e['conn'], {'spid': e['spid'], 'msgs': []})['msgs'].append(e['data'])
             clist = []
